@@ -8,6 +8,14 @@
 //	           M  proxy CONNECTs through a second real martian proxy (SetDownstreamProxy)
 //	           F  proxy CONNECTs through a scripted downstream proxy that answers
 //	              "HTTP/1.1 200 OK" and the first <banner> target bytes in ONE write
+//	           F<code>[c|r]  the scripted downstream proxy answers with that status (any 2xx
+//	              announces the tunnel, RFC 7231 4.3.6); c adds "Content-Length: 0", r uses the
+//	              reason phrase "Connection established" and a Proxy-Agent header
+//	           a suffix +s or +w selects the proxy's client-facing listener: +s tls.NewListener
+//	              (the client speaks TLS to the proxy, CONNECT inside), +w a wrapper whose
+//	              connections implement net.Conn only (no ReadFrom/WriteTo/CloseWrite; the proxy
+//	              cannot half-close such a connection: when the target shuts it closes it, which
+//	              ends the client's direction too — scripts and expectations account for that)
 //	    early  number of client payload bytes written in the SAME write as the CONNECT head;
 //	           e<n>h: the client also half-closes right then, before the CONNECT response
 //	           (= an implicit first phase "ch/t", which gets its own checkpoint)
@@ -26,6 +34,9 @@
 //	           "GET http://<canary>/from-dead-tunnel", Pr raw bytes without a newline — until a
 //	           write fails (the proxy closed the client connection) or the grace period ends;
 //	           a canary origin records whether anything reached it
+//	DOWN <code><b|c|n>  the scripted downstream proxy refuses: status <code> with a 13-byte body
+//	             and Content-Length (b), with Content-Length: 0 (c), or with neither (n), then
+//	             closes.  OUT s<status> B<body bytes the client got> E1|E0 (client saw the end)
 //	FAIL <via>   CONNECT to a port nobody listens on (D direct, M through a real downstream
 //	             martian, X the downstream proxy itself is unreachable)
 //
@@ -50,9 +61,17 @@ package main
 import (
 	"bufio"
 	"bytes"
+	"crypto/ecdsa"
+	"crypto/elliptic"
+	"crypto/rand"
+	"crypto/tls"
+	"crypto/x509"
+	"crypto/x509/pkix"
 	"fmt"
 	"io"
+	"math/big"
 	"net"
+	"net/http"
 	"net/url"
 	"os"
 	"strconv"
@@ -86,7 +105,10 @@ func (s side) total() int {
 type phase struct{ c, t side }
 
 type tcase struct {
-	via           string
+	via           string // D, M, F
+	lkind         byte   // 't' plain TCP, 's' TLS, 'w' net.Conn-only wrapper
+	fcode         int    // status the scripted downstream proxy answers with
+	fvar          byte   // 0, 'c', 'r'
 	early, banner int
 	earlyShut     bool
 	probe         byte // 0, 'q', 'r'
@@ -134,7 +156,28 @@ func parseTun(in []string) (*tcase, error) {
 	if len(in) < 4 || in[0] != "TUN" {
 		return nil, fmt.Errorf("short")
 	}
-	tc := &tcase{via: in[1]}
+	tc := &tcase{via: in[1], lkind: 't', fcode: 200}
+	if i := strings.IndexByte(tc.via, '+'); i >= 0 {
+		if lk := tc.via[i+1:]; lk == "s" || lk == "w" {
+			tc.lkind = lk[0]
+		} else {
+			return nil, fmt.Errorf("listener kind")
+		}
+		tc.via = tc.via[:i]
+	}
+	if strings.HasPrefix(tc.via, "F") && len(tc.via) > 1 {
+		rest := tc.via[1:]
+		if n := len(rest); rest[n-1] == 'c' || rest[n-1] == 'r' {
+			tc.fvar = rest[n-1]
+			rest = rest[:n-1]
+		}
+		code, err := strconv.Atoi(rest)
+		if err != nil || code < 200 || code > 299 {
+			return nil, fmt.Errorf("downstream status")
+		}
+		tc.fcode = code
+		tc.via = "F"
+	}
 	if tc.via != "D" && tc.via != "M" && tc.via != "F" {
 		return nil, fmt.Errorf("via")
 	}
@@ -290,7 +333,7 @@ func writer(conn net.Conn, e *end, data []byte, off int, sd side, wg *sync.WaitG
 		conn.Close()
 	case 'a':
 		atomic.StoreInt32(&e.local, 1)
-		if tc, ok := conn.(*net.TCPConn); ok {
+		if tc, ok := rawOf(conn).(*net.TCPConn); ok {
 			tc.SetLinger(0)
 		}
 		conn.Close()
@@ -320,6 +363,138 @@ func writeAll(conn net.Conn, e *end, data []byte, off int, sd side) {
 			}
 		}
 	}
+}
+
+func rawOf(c net.Conn) net.Conn {
+	if t, ok := c.(*tls.Conn); ok {
+		return t.NetConn()
+	}
+	return c
+}
+
+// bareListener hands out connections that implement net.Conn and nothing else.
+type bareListener struct{ net.Listener }
+
+type bareConn struct{ net.Conn }
+
+func (l bareListener) Accept() (net.Conn, error) {
+	c, err := l.Listener.Accept()
+	if err != nil {
+		return nil, err
+	}
+	return bareConn{c}, nil
+}
+
+var (
+	tlsOnce sync.Once
+	tlsCfg  *tls.Config
+)
+
+func serverTLS() *tls.Config {
+	tlsOnce.Do(func() {
+		key, err := ecdsa.GenerateKey(elliptic.P256(), rand.Reader)
+		if err != nil {
+			panic(err)
+		}
+		tmpl := &x509.Certificate{
+			SerialNumber: big.NewInt(1), Subject: pkix.Name{CommonName: "c04-proxy"},
+			NotBefore: time.Now().Add(-time.Hour), NotAfter: time.Now().Add(24 * time.Hour),
+			KeyUsage: x509.KeyUsageDigitalSignature, ExtKeyUsage: []x509.ExtKeyUsage{x509.ExtKeyUsageServerAuth},
+			DNSNames: []string{"localhost"},
+		}
+		der, err := x509.CreateCertificate(rand.Reader, tmpl, tmpl, &key.PublicKey, key)
+		if err != nil {
+			panic(err)
+		}
+		tlsCfg = &tls.Config{Certificates: []tls.Certificate{{Certificate: [][]byte{der}, PrivateKey: key}}}
+	})
+	return tlsCfg
+}
+
+func downstreamHead(code int, v byte) string {
+	switch v {
+	case 'c':
+		return fmt.Sprintf("HTTP/1.1 %d %s\r\nContent-Length: 0\r\n\r\n", code, statusText(code))
+	case 'r':
+		return fmt.Sprintf("HTTP/1.1 %d Connection established\r\nProxy-Agent: scripted\r\n\r\n", code)
+	}
+	return fmt.Sprintf("HTTP/1.1 %d %s\r\n\r\n", code, statusText(code))
+}
+
+func statusText(code int) string {
+	if t := http.StatusText(code); t != "" {
+		return t
+	}
+	return "Status"
+}
+
+const refusal = "downstream-no"
+
+// runDown: the scripted downstream proxy refuses the CONNECT.
+func runDown(arg string, grace time.Duration) []string {
+	if len(arg) < 4 {
+		return []string{"badscript"}
+	}
+	v := arg[len(arg)-1]
+	code, err := strconv.Atoi(arg[:len(arg)-1])
+	if err != nil || code < 300 || code > 599 || strings.IndexByte("bcn", v) < 0 {
+		return []string{"badscript"}
+	}
+	dl := listen()
+	defer dl.Close()
+	pl := listen()
+	defer pl.Close()
+	p := martian.NewProxy()
+	defer func() { go p.Close() }()
+	p.SetDownstreamProxy(&url.URL{Host: dl.Addr().String()})
+	go p.Serve(pl)
+	go func() {
+		c, err := dl.Accept()
+		if err != nil {
+			return
+		}
+		defer c.Close()
+		c.SetDeadline(time.Now().Add(10 * time.Second))
+		if _, err := readHead(bufio.NewReader(c)); err != nil {
+			return
+		}
+		h := fmt.Sprintf("HTTP/1.1 %d %s\r\n", code, statusText(code))
+		switch v {
+		case 'b':
+			h += fmt.Sprintf("Content-Length: %d\r\n\r\n%s", len(refusal), refusal)
+		case 'c':
+			h += "Content-Length: 0\r\n\r\n"
+		default:
+			h += "\r\n"
+		}
+		c.Write([]byte(h))
+	}()
+	c, err := net.DialTimeout("tcp", pl.Addr().String(), 5*time.Second)
+	if err != nil {
+		return []string{"dialerr"}
+	}
+	defer c.Close()
+	if _, err := c.Write([]byte("CONNECT 127.0.0.1:1 HTTP/1.1\r\nHost: 127.0.0.1:1\r\n\r\n")); err != nil {
+		return []string{"writeerr"}
+	}
+	br := bufio.NewReader(c)
+	c.SetReadDeadline(time.Now().Add(3 * grace))
+	lines, err := readHead(br)
+	if err != nil {
+		return []string{"noresponse"}
+	}
+	st, _ := statusOf(lines)
+	c.SetReadDeadline(time.Now().Add(grace))
+	body, rerr := io.ReadAll(br)
+	e := "E1"
+	if ne, ok := rerr.(net.Error); ok && ne.Timeout() {
+		e = "E0"
+	}
+	ok := "+"
+	if len(body) > len(refusal) || string(body) != refusal[:len(body)] {
+		ok = "!"
+	}
+	return []string{fmt.Sprintf("s%d", st), fmt.Sprintf("B%d%s", len(body), ok), e}
 }
 
 // ------------------------------------------------------------ the tunnel
@@ -421,7 +596,14 @@ func runTun(tc *tcase, grace, headWait time.Duration) (out []string, timingOnly 
 	case "F":
 		p.SetDownstreamProxy(&url.URL{Host: tl.Addr().String()})
 	}
-	go p.Serve(pl)
+	var cl net.Listener = pl
+	switch tc.lkind {
+	case 's':
+		cl = tls.NewListener(pl, serverTLS())
+	case 'w':
+		cl = bareListener{pl}
+	}
+	go p.Serve(cl)
 	released := false
 	defer func() {
 		if !released {
@@ -444,11 +626,21 @@ func runTun(tc *tcase, grace, headWait time.Duration) (out []string, timingOnly 
 		accc <- acc{c, err}
 	}()
 
-	cconn, err := net.DialTimeout("tcp", pl.Addr().String(), 5*time.Second)
+	rawc, err := net.DialTimeout("tcp", pl.Addr().String(), 5*time.Second)
 	if err != nil {
 		return []string{"dialerr"}, false
 	}
-	defer cconn.Close()
+	defer rawc.Close()
+	cconn := rawc
+	if tc.lkind == 's' {
+		tcl := tls.Client(rawc, &tls.Config{InsecureSkipVerify: true})
+		rawc.SetDeadline(time.Now().Add(10 * time.Second))
+		if err := tcl.Handshake(); err != nil {
+			return []string{"tlshandshake"}, false
+		}
+		rawc.SetDeadline(time.Time{})
+		cconn = tcl
+	}
 	thost := tl.Addr().String()
 	head := "CONNECT " + thost + " HTTP/1.1\r\nHost: " + thost + "\r\n\r\n"
 	first := append([]byte(head), cdata[:tc.early]...)
@@ -478,7 +670,7 @@ func runTun(tc *tcase, grace, headWait time.Duration) (out []string, timingOnly 
 		if err != nil || len(lines) == 0 || !strings.HasPrefix(lines[0], "CONNECT "+thost+" ") {
 			return []string{"badconnecthead"}, false
 		}
-		if _, err := tconn.Write(append([]byte("HTTP/1.1 200 OK\r\n\r\n"), tdata[:tc.banner]...)); err != nil {
+		if _, err := tconn.Write(append([]byte(downstreamHead(tc.fcode, tc.fvar)), tdata[:tc.banner]...)); err != nil {
 			return []string{"twriteerr"}, false
 		}
 	} else if tc.banner > 0 {
@@ -496,7 +688,7 @@ func runTun(tc *tcase, grace, headWait time.Duration) (out []string, timingOnly 
 	}
 	st, _ := statusOf(lines)
 	out = append(out, fmt.Sprintf("s%d", st))
-	if st != 200 {
+	if st/100 != 2 {
 		return out, false
 	}
 
@@ -523,6 +715,9 @@ func runTun(tc *tcase, grace, headWait time.Duration) (out []string, timingOnly 
 		tshut = tshut || ph.t.shut != 0
 		cfull = cfull || strings.IndexByte("fau", ph.c.shut) >= 0 && ph.c.shut != 0
 		tfull = tfull || strings.IndexByte("fau", ph.t.shut) >= 0 && ph.t.shut != 0
+		if tc.lkind == 'w' && tshut {
+			cshut = true // the proxy can only close the client connection: both directions end
+		}
 
 		// checkpoint
 		met := func(cs, ts snap, wd bool) bool {
@@ -637,7 +832,7 @@ func runTun(tc *tcase, grace, headWait time.Duration) (out []string, timingOnly 
 // ideal is what a perfect tunnel shows; used ONLY to decide whether a case
 // that timed out somewhere deserves one retry (the verdict is the driver's).
 func ideal(tc *tcase) []string {
-	out := []string{"s200"}
+	out := []string{fmt.Sprintf("s%d", tc.fcode)}
 	cn, tn := tc.early, tc.banner
 	cshut, tshut, cfull, tfull := false, false, false, false
 	for _, ph := range tc.phases {
@@ -647,6 +842,9 @@ func ideal(tc *tcase) []string {
 		tshut = tshut || ph.t.shut != 0
 		cfull = cfull || strings.IndexByte("fau", ph.c.shut) >= 0 && ph.c.shut != 0
 		tfull = tfull || strings.IndexByte("fau", ph.t.shut) >= 0 && ph.t.shut != 0
+		if tc.lkind == 'w' && tshut {
+			cshut = true
+		}
 		ef := func(b bool) int32 {
 			if b {
 				return 1
@@ -760,6 +958,11 @@ func runCase(in []string) []string {
 			return []string{"badscript"}
 		}
 		return runFail(in[1])
+	case "DOWN":
+		if len(in) != 2 {
+			return []string{"badscript"}
+		}
+		return runDown(in[1], time.Duration(graceMS)*time.Millisecond)
 	}
 	return []string{"badcase"}
 }
